@@ -21,28 +21,42 @@ from tools import common, shroudrun
 LEVEL = "proof"
 MANIFEST = dict(
     category="proof",
-    text="Lean 4 theorems on a model of the Fortran wrapper path: for all values and lengths, shape lemmas for every modelled "
-         "argument/result kind (logical<->bool in/out/inout, scalars by value, pointer/array pass-through, character and "
-         "std::string in/out/inout and results through the bufferify and the CFI function: the library receives the "
-         "NUL-terminated text without trailing blanks, the caller holds take L (s ++ blanks), temporaries are released); "
-         "table theorems over the regenerated fc_statements (both language tables): every entry reached for a modelled key is "
-         "exactly the documented op sequence with the right variables in the right positions; assembly for all parameter "
-         "lists (declaration order, this first, hidden/implied dropped from the API and supplied to C); routing of "
-         "bufferify/CFI clones, default-arity clones are prefixes covering every arity once, generic interfaces hold exactly "
-         "the wrapped specifics of that name; configuration independence (language c/c++, F_CFI off/on) for the modelled "
-         "kinds. The model is tied to the code by per-function correspondence (matched statements, F_arg_c_call, "
-         "F_arguments, F_C_call, generic interfaces) on generated descriptions and the upstream corpus; an "
-         "implementation-only compile-and-run oracle compares library and caller traces with the declaration's meaning "
-         "under all configurations.",
+    text="Lean 4 theorems (70, all axioms within propext/Classical.choice/Quot.sound) on a model of the Fortran wrapper path. "
+         "(1) Shape lemmas, for all values, lengths and extents, of the trip of one argument or result through Fortran pre_call, the "
+         "bind(C) actuals per buf_arg, the bufferify or CFI C wrapper, the library, C post_call, storage association and Fortran "
+         "post_call, for 31 kinds: logical<->bool in/out/inout; scalars by value; pointer/array pass-through and allocatable out arrays; "
+         "character and std::string in/out/inout and results copied into character(len=L) (library receives the NUL-terminated text "
+         "without trailing blanks, caller holds take L (s ++ blanks), temporaries released), both through the buf and the cfi entries; "
+         "std::vector in/out/inout/result with and without allocatable (min(size) elements copied, exact size when allocatable, heap "
+         "vector released); T** out and native pointer/allocatable results through the context struct (library address, declared "
+         "extents, ranks 1-3); char** input; allocatable character / std::string results (composed with C10's allocatable_* theorems, "
+         "_partial: no embedded NUL); std::vector<std::string> input (composed with C10 vecStringIn_spec), and the NEGATIVE result that "
+         "std::vector<std::string> out/inout is undefined because the Fortran block is f_vector_out. "
+         "(2) Table theorems over the regenerated fc_statements (language c and c++ tables): every entry reached for a key of a modelled "
+         "kind is exactly the documented op sequence with the same variables in every position; pointer results take the C return value; "
+         "the regenerated probe of wrapc.set_fmt_fields gives shape[i] = dimension i and size = product (ctx_size_is_product). "
+         "(3) Assembly for all parameter lists: declaration order, this first, hidden/implied dropped from the API and supplied to C; "
+         "implied expressions (size/len/len_trim/type/true/false/arithmetic) evaluate to the caller's own inquiry values and type(a) to the "
+         "wrapped function's own declaration; routing through _PTR_F_C_index / _PTR_C_CXX_index chains, default-argument clones are "
+         "prefixes covering every arity once, fortran_generic clones route only to their own function's C clones, generic interfaces hold "
+         "exactly the wrapped specifics of a name. (4) Configuration independence _partial: language c/c++ for every modelled kind; F_CFI "
+         "off/on for the character kinds that have cfi entries; the context kinds have no cfi entry (theorem) - arguments fall back to the "
+         "buf entries (fix b7285e7), context RESULTS with character arguments remain an open finding; debug on/off is NOT covered here "
+         "(comments only: property C16), the oracle merely runs both settings.",
     design="3 C01",
-    note="Trusted: Lean kernel; translator pattern table (meaning of template lines); hand-written wrap_function_impl model "
-         "validated by correspondence only; gfortran/gcc/g++ code generation and Fortran argument association. _partial: "
-         "std::vector, context/cdesc descriptors, allocatable/pointer results (allocatable strings are C10's "
-         "allocatable_*_partial), capsules, char**, struct casts, CFI_allocate are translated as opaque ops and only "
-         "exercised by the tie and (strings) the oracle; configuration independence is proved for the modelled kinds only "
-         "(std::vector, T** out, native pointer/allocatable results and char** are modelled but have no CFI entry).",
-    technique="Lean 4 proof (interpreter over regenerated op tables, induction over parameter and clone lists, decide +kernel "
-              "table theorems) + differential correspondence + compile-and-run oracle",
+    note="Tied to the code by (T) tools/extract_fstmts.py regenerating Gen/FStmts.lean on every run (table rows for both languages, "
+         "template lines -> op codes by an explicit regex pattern table that captures the variable in each position, clause-level "
+         "patterns for the vector<string> loops, a probe of the real pipeline for context shape/size; unknown line => loud failure) and "
+         "(D) per-function correspondence of the real generate_functions+Wrapc+Wrapf with assembleF / lookup / routeC / genericTargets / "
+         "collectGenerics / IExpr.render on generated descriptions (feature combinations printed into the evidence) and the upstream "
+         "corpus. Trusted / modelled, not verified: the meaning the pattern table assigns to template lines; the hand-written model of "
+         "wrap_function_impl and generic_function; byte-level helper semantics of C10; gfortran/gcc/g++ code generation, Fortran argument "
+         "association and the address sanitizer; that format dictionaries of different arguments use different names. Still opaque ops: "
+         "+cdesc arguments (type-erased descriptor interpreted by the library), capsule arguments (C06), struct casts, CFI_allocate "
+         "results, the non-bufferify std::string entries (plain C API: C02).",
+    technique="Lean 4 proof (interpreter over regenerated op tables, induction over parameter / clone / generic lists, decide +kernel table "
+              "theorems, composition with C10 lemmas) + differential correspondence + compile-and-run oracle (instrumented C and C++ "
+              "subject libraries, boundary values and sizes, every modelled kind executed per run, {c, c++} x {F_CFI} x {debug}, ASan)",
 )
 MODULES = ["ShroudVerif.Props.C01"]
 THEOREMS = {
@@ -63,19 +77,25 @@ THEOREMS = {
         "vector_result_allocatable", "ptrptr_out", "result_pointer", "result_allocatable", "char_array_in",
         "context_kinds_have_no_cfi_entry", "result_call_clause",
         "ctx_probe_canonical", "ctx_size_is_product", "implied_type_is_own_declaration", "implied_eval",
+        "char_result_allocatable", "char_result_allocatable_null", "string_result_allocatable_partial",
+        "string_val_result_allocatable_partial", "vector_string_in", "vector_string_out_c_wrapper",
+        "vector_string_out_fortran_undefined",
     ]]
 }
 
-PARTIAL = ["std::vector<std::string> (c_vector_*_buf_string: loop templates are opaque ops)",
-           "cdesc arguments (+cdesc: f/c_native_*_cdesc, c_void_*_cdesc) and f_native_**_out_raw",
-           "allocatable character / std::string results through the context struct (c_*_result_buf_allocatable, "
-           "ShroudStrToArray, copy_string: C10 allocatable_*_partial) and CFI_allocate results (c_*_result_cfi_allocatable)",
-           "capsule arguments (owner(caller) pointer results: f_native_*_result_buf_pointer_caller)",
+PARTIAL = ["+cdesc arguments (f/c_native_*_cdesc, c_void_*_cdesc) and f_native_**_out_raw: a type-erased descriptor whose meaning is "
+           "given by the library; opaque ops",
+           "allocatable character / std::string results: modelled for strings without an embedded NUL (C10 allocatable_*_partial); "
+           "the CFI_allocate forms (c_*_result_cfi_allocatable) are opaque",
+           "std::vector<std::string> out / inout: C wrapper modelled, composed call proved undefined (vector_string_out_fortran_undefined)",
+           "capsule arguments (owner(caller) pointer results: f_native_*_result_buf_pointer_caller; C06)",
            "struct conversion casts (c_struct*), shadow (class instance) arguments beyond the this-argument position",
            "non-bufferify std::string entries (c_string_*_in/out/inout: strcpy forms, plain C API: C02)",
-           "std::vector, T** out, context results and char** have no _cfi entry (theorem context_kinds_have_no_cfi_entry): "
-           "no configuration-independence statement for them; the oracle runs them with F_CFI=false only",
-           "debug on/off (C16) is exercised by the oracle only"]
+           "std::vector, T** out, context results, char**, vector<string> have no _cfi entry (theorem context_kinds_have_no_cfi_entry): "
+           "no F_CFI-independence statement for them; arguments take the buf entries under F_CFI (fix b7285e7), context RESULTS with "
+           "character arguments are the open finding",
+           "context shape/size: ranks 1 to 3 (the probe); sizes that do not fit a C int are outside the model",
+           "debug on/off is property C16; the oracle only runs both settings"]
 
 # internal failures of Shroud on legal combinations, minimised and handed to C05 (corpus/c05.txt + known findings)
 HANDED_OVER = ["'{C_array_type} *{c_var_context}'", "'int {c_var_len}'", "'Scope' object has no attribute 'c_var'"]
@@ -296,20 +316,28 @@ def run(ctx):
     ok = ctx.lean(MODULES, THEOREMS, extra_targets=("drv_wrapf",))
     ctx.cov["trusted_base"] = [
         "Lean 4.33.0 kernel; axioms within {propext, Classical.choice, Quot.sound}",
-        "tools/extract_fstmts.py: that the pattern table assigns each template line the op it means; unknown line => failure",
-        "Model/WrapF.lean assembleF / lookup / runArg: validated against the code by correspondence, not derived from it",
-        "Model/StrHelpers.lean (C10) byte-level helper semantics",
-        "gfortran/gcc/g++ 12 and the address sanitizer (oracle)",
+        "tools/extract_fstmts.py: the regex / clause pattern table assigns each template line the op it means (variables captured per "
+        "position); the probe of wrapc.set_fmt_fields parses c_array_shape / c_array_size; unknown line => TranslatorError",
+        "Model/WrapF.lean (runArgWith, assembleF, lookup, routeC, genericTargets, collectGenerics, IExpr): validated against the code by "
+        "correspondence on generated descriptions and the corpus, not derived from it",
+        "Model/StrHelpers.lean + Props/C10 (byte-level helper semantics, imported lemmas)",
+        "gfortran/gcc/g++ 12, Fortran argument association, the address sanitizer (oracle)",
     ]
-    ctx.cov["rule"] = ("tie: one evaluation per Fortran-wrapped function (assembly), per route and per library (generic interfaces); "
-                       "non-trivial = a function with >= 2 C actuals or >= 1 argument block, a route that leaves the node, a library with "
-                       "a generic interface; oracle: one evaluation per (library, configuration) compiled and run; distinct = "
+    ctx.cov["rule"] = ("tie: one evaluation per Fortran-wrapped function (assembly: statements, F_arg_c_call, F_arguments), per route "
+                       "(F_C_call vs index chain), per fortran_generic function incl. default-argument clones (clone targets), per emitted "
+                       "implied expression (text per wrapper), per library (generic interfaces); non-trivial = >= 2 C actuals or >= 1 "
+                       "argument block, a route that leaves the node, distinct clone targets, an implied expression, a library with a "
+                       "generic interface; oracle: one evaluation per (library, configuration) compiled and run with a trace equal to the "
+                       "expectation computed from the declaration; kind coverage per run in notes.oracle_kind_coverage; distinct = "
                        "(actual/statement signature) resp. (library, language, F_CFI, debug)")
     ctx.cov["partial"] = PARTIAL
     ctx.assumptions += [
         "format dictionaries of different arguments use different variable names (ops of different arguments commute)",
         "character input holds no NUL byte; char* intent(out) callee stores a NUL inside the buffer (C10 precondition)",
+        "string lengths fit a C int (C10 narrow32); context ranks 1 to 3",
         "the C++ compiler supplies default argument values for omitted trailing arguments",
+        "library memory behind a returned pointer holds at least prod(dimension) elements",
+        "debug on/off changes comments only (property C16); not proved here",
     ]
 
     r = common.rng("c01")
@@ -430,8 +458,10 @@ def run(ctx):
                                           "note": "charIn: `const char *` takes the trim()//C_NULL_CHAR path with F_CFI=false (c_char_*_in_buf is "
                                                   "not reachable: ftrim_char_in is always set) and c_char_*_in_cfi with F_CFI=true; vectorResult "
                                                   "(f_vector_result without allocatable) is not reachable from a declaration: a by-value vector "
-                                                  "result always gets deref(allocatable)"})
-        missing = [k for k, v in cov.items() if v == 0 and k != "vectorResult"]
+                                                  "result always gets deref(allocatable); vecStrOut / vecStrInout: the composed call is undefined "
+                                                  "(theorem vector_string_out_fortran_undefined; upstream disables these functions), so there is "
+                                                  "nothing to run"})
+        missing = [k for k, v in cov.items() if v == 0 and k not in ("vectorResult", "vecStrOut", "vecStrInout")]
         if missing and not ctx.failing and not ctx.broken:
             ctx.tie_broken("oracle kind coverage: modelled kinds not executed in this run", missing)
     finally:
